@@ -37,14 +37,16 @@ def run(ctx):
               "all four http-family guns and the scenario gun over the http2 client; POST ammo with a body; child process; the target counts the "
               "redirects followed per chain and never ends a chain itself); real grpc/scenario provider + gun under the real engine against a "
               "scripted grpc target (any status code per call, target going away mid-call, unknown method, unfit payload, failing template, "
-              "assert/response). non-trivial: "
+              "assert/response); runs whose samples go through the real phout aggregator (recycled sample objects) and are read back from its file; "
+              "tunnel endpoints rejecting the CONNECT with a body they never finish. non-trivial: "
               "var/header chains containing substr with a non-empty value; assert cases with at least one condition; xpath "
               "cases whose expression is not a node set; every jsonpath case; engine cases with >1 step or a scenario; "
               "distinct = distinct case lines. Library outcomes (xpath value kind, json/jsonpath success) are inputs of the "
               "model and are taken from the observation; lower/upper/replace with an empty pattern are generated on ASCII only"),
         key_fn=key_fn,
         translators=[("gofn-mp", "GoFnMpGen.v"), ("lockflow", "LockFlowGen.v"), ("bodysinks", "BodySinksGen.v"),
-                     ("redirclient", "RedirClientGen.v"), ("grpcstatus", "GrpcStatusGen.v")],
+                     ("redirclient", "RedirClientGen.v"), ("grpcstatus", "GrpcStatusGen.v"),
+                     ("sampleacquire", "SampleAcquireGen.v")],
         # Properties/C19_wire.v: announced-versus-arriving body sizes and the lock-flow theorems (extra obligations);
         # Gen/LockFlow_bridge.v: the check evaluated on the skeletons re-read from lib/netutil/dial.go
         # Gen/BodySinks_bridge.v: every place of the http-family gun packages that consumes a body uses one of the two modelled sinks,
@@ -52,7 +54,8 @@ def run(ctx):
         # Properties/C19_redirect.v: targets answering with redirects (any graph; the client's loop ends under the default policy);
         # Gen/RedirClient_bridge.v: every net/http Client literal of the gun packages leaves CheckRedirect to the default
         bridge_files=["Gen/GoFnMp_bridge.v", "Gen/LockFlow_bridge.v", "Gen/BodySinks_bridge.v", "Properties/C19_wire.v",
-                      "Gen/RedirClient_bridge.v", "Properties/C19_redirect.v", "Properties/C19_grpcscn.v"],
+                      "Gen/RedirClient_bridge.v", "Properties/C19_redirect.v", "Properties/C19_grpcscn.v",
+                      "Gen/SampleAcquire_bridge.v", "Properties/C19_recycle.v"],
         trusted=[
             "extraction: ExtrOcamlBasic only; OCaml driver ocaml/C19/main.ml (incl. its copy of str.ParseStringFunc for modifier text) + ocaml/common/conv.ml",
             "correspondence harness harness/cmd/hC19 (real postprocessors under recover; scripted TCP target; real config decoder, "
